@@ -68,7 +68,7 @@ package cbreaker
 //@ functype cbreaker.hpredicate
 //@   params c
 //@   holds CircuitBreaker.m
-//@   modifies RollingCounter.lastUpdated
+//@   modifies everything
 //@   ensures deterministic: result == hpval(self, c)
 
 //@ spec hpval(f int, c *CircuitBreaker) bool
@@ -98,8 +98,9 @@ package cbreaker
 //@   ensures nil_is_noop: s == nil ==> calls("go:exec$1") == 0
 //@   ensures one_goroutine: s != nil ==> calls("go:exec$1") == 1
 
-//@ func exec$1
+//@ func (*CircuitBreaker).exec$1
 //@   props C18
+//@   requires c != nil && s != nil
 //@   modifies everything
 //@   ensures runs_once: calls(s.Exec) == 1
 
@@ -109,9 +110,9 @@ package cbreaker
 //@   requires legal_transition: edge(c.state, state)
 //@   modifies c.state, c.until
 //@   ensures set: c.state == state && c.until == until
-//@   ensures tripped_effect_once: state == 1 ==> calls("go:exec$1") == ite(c.onTripped != nil, 1, 0) && (calls("go:exec$1") == 1 ==> callarg(exec, 0, 1) == c.onTripped)
-//@   ensures standby_effect_once: state == 0 ==> calls("go:exec$1") == ite(c.onStandby != nil, 1, 0) && (calls("go:exec$1") == 1 ==> callarg(exec, 0, 1) == c.onStandby)
-//@   ensures no_effect_otherwise: state == 2 ==> calls("go:exec$1") == 0
+//@   ensures tripped_effect_once: state == 1 ==> calls(exec) == 1 && callarg(exec, 0, 1) == c.onTripped
+//@   ensures standby_effect_once: state == 0 ==> calls(exec) == 1 && callarg(exec, 0, 1) == c.onStandby
+//@   ensures no_effect_otherwise: state == 2 ==> calls(exec) == 0
 
 //@ func (*CircuitBreaker).setRecovering
 //@   props C05 C12
@@ -137,20 +138,22 @@ package cbreaker
 //@   props C05 C18
 //@   assume clock_stable
 //@   modifies c.state, c.until, c.lastCheck, everything
-//@   ensures not_due_no_change: !callres(timeToCheck, 0, 0) ==> calls(c.condition) == 0 && calls(c.metrics.Reset) == 0
+//@   ensures not_due_no_change: !callres(timeToCheck, 0, 0) ==> calls(c.condition) == 0 && calls(Reset) == 0
 //@   ensures trips_iff_condition: calls(c.condition) == 1 ==> ((c.state == 1) <==> callres(c.condition, 0, 0))
-//@   ensures tripping_clears_metrics: calls(c.condition) == 1 && callres(c.condition, 0, 0) ==> calls(c.metrics.Reset) == 1 && c.until == lastclock + c.fallbackDuration
-//@   ensures no_trip_no_reset: calls(c.condition) == 0 || !callres(c.condition, 0, 0) ==> calls(c.metrics.Reset) == 0
+//@   ensures tripping_clears_metrics: calls(c.condition) == 1 && callres(c.condition, 0, 0) ==> calls(Reset) == 1 && c.until == lastclock + c.fallbackDuration
+//@   ensures no_trip_no_reset: calls(c.condition) == 0 || !callres(c.condition, 0, 0) ==> calls(Reset) == 0
 //@   ensures evaluated_once: calls(c.condition) <= 1
 
 //@ func (*CircuitBreaker).serve
 //@   props C05 C18 C20
+//@   requires c.metrics != nil && c.next != nil
 //@   modifies everything
 //@   ensures handler_once: calls(c.next.ServeHTTP) == 1
-//@   ensures recorded_once: calls(c.metrics.Record) == 1 && calls(checkAndSet) == 1 && before(c.next.ServeHTTP, c.metrics.Record) && before(c.metrics.Record, checkAndSet)
+//@   ensures recorded_once: calls(Record) == 1 && calls(checkAndSet) == 1 && before(c.next.ServeHTTP, Record) && before(Record, checkAndSet)
 
 //@ func (*CircuitBreaker).ServeHTTP
 //@   props C05 C20
+//@   requires c.metrics != nil && c.next != nil && c.fallback != nil
 //@   modifies everything
 //@   ensures one_outcome: calls(c.fallback.ServeHTTP) + calls(serve) == 1
 //@   ensures fallback_iff_activated: (calls(c.fallback.ServeHTTP) == 1) <==> callres(activateFallback, 0, 0)
